@@ -99,7 +99,7 @@ def _stab(F, e_or_atoms):
     """Origin atoms that survive refactoring: parameters with their field paths, names of projected fields, workspace callees, integer values
     (a literal and a named constant of the same value are the same atom) and arithmetic operators (checked/saturating forms and min/max
     included). Calls into std/external crates (iterators, collections, Option/Result plumbing) are representation, not origin."""
-    at = e_or_atoms if isinstance(e_or_atoms, (set, list, tuple, frozenset)) else atoms(e_or_atoms)
+    at = e_or_atoms if isinstance(e_or_atoms, (set, list, tuple, frozenset)) else atoms(e_or_atoms, ranges=True)
     cur, base = ws_short_names(F)
     out = set()
     for a in at:
@@ -112,7 +112,12 @@ def _stab(F, e_or_atoms):
             m = re.search(r"=(-?\d{1,12})$", a)
             if m:
                 out.add("val:" + m.group(1))
-            continue  # promoted constants (`None`, a struct literal) and fn items carry no stable origin
+            elif a.startswith("item:fn "):
+                # a workspace function handed to a combinator (`unwrap_or_else(Transaction::empty)`) is called on its behalf
+                n2 = "::".join(a[8:].split("::")[-2:])
+                if n2 in cur or n2 in base:
+                    out.add("call:" + n2)
+            continue  # promoted constants (`None`, a struct literal) carry no stable origin
         if a.startswith("op:"):
             o = a[3:].replace("WithOverflow", "")
             if o == "Not":
@@ -184,7 +189,7 @@ GATE = ("try", "match", "match-far", "isok", "bool", "plain-return")
 def _calls_of(F, key):
     """Workspace calls and state-changing (sink) calls of a function, with their success edges."""
     fn = F.fns[key]
-    ex = exprs_for(F, key)
+    ex = plain_for(F, key)
     live = live_blocks(fn)
     calls = []
     for bi, t in F.calls(key):
@@ -213,6 +218,15 @@ def _recv_is_state(fn, t, ex):
     return bool(re.match(r"^arg\d+(\.[a-z_][a-z0-9_]*)+$", r))
 
 
+def plain_for(F, key):
+    fn = F.fns[key]
+    ex = fn.get("_r9plain")
+    if ex is None:
+        ex = Exprs(fn)
+        fn["_r9plain"] = ex
+    return ex
+
+
 def exprs_for(F, key, depth=0):
     """Expression slicer of a function; for a closure, upvars resolve into the enclosing function's expression trees."""
     fn = F.fns[key]
@@ -236,7 +250,8 @@ def exprs_for(F, key, depth=0):
 
 def summarize(F, key):
     fn = F.fns[key]
-    ex = exprs_for(F, key)
+    ex = plain_for(F, key)
+    exu = exprs_for(F, key)  # closure upvars resolved into the enclosing function: used for argument origins only (what a check is applied to)
     live = live_blocks(fn)
     rets = return_blocks(fn)
     is_res = is_result_ty(fn["locals"][0]["s"])
@@ -329,7 +344,7 @@ def summarize(F, key):
         keep = [c for c in blst if (c["sink"] and (c["ws"] or _recv_is_state(fn, c["t"], ex))) or (c["ws"] and _swap_prone(F, c["t"])) or (c["ws"] and c["kind"] in GATE and c["kind"] != "plain-return")]
         if not keep:
             continue
-        args[bk] = [[_stab(F, ex.operand(a)) + _narrow_op(fn, ex, a) for a in c["t"]["args"][:6]] for c in keep]
+        args[bk] = [[_stab(F, exu.operand(a)) + _narrow_op(fn, exu, a) for a in c["t"]["args"][:6]] for c in keep]
     # guards: every real branch condition - `?`, log-level tests and loop headers excluded
     conds = {}
     guards = []
@@ -338,6 +353,26 @@ def summarize(F, key):
         if _is_try_switch(fn, bi):
             continue  # `?`: covered by the must/order summaries
         sig = cond_signature(F, e)
+        dl = local_of(fn["blocks"][bi]["term"]["d"])
+        if dl is not None and INT_TY.match(fn["locals"][dl]["s"]) and arms and not as_cmp(e) and e.kind not in ("discr", "phi") and not render(e).startswith("discr("):
+            # `match height { 0 => .., _ => .. }` switches on the integer itself: the same tests as `height == 0`
+            side = _stab(F, e)
+            if side:
+                extra_sigs = []
+                for v, _t2 in arms:
+                    try:
+                        sg = ["Eq", side, ["val:%d" % int(v)]]
+                    except ValueError:
+                        continue
+                    if json.dumps(sg[1]) > json.dumps(sg[2]):
+                        sg = ["Eq", sg[2], sg[1]]
+                    extra_sigs.append(sg)
+                if extra_sigs:
+                    sig = extra_sigs[0]
+                    for sg in extra_sigs[1:]:
+                        gcount[json.dumps(sg)] += 1
+                        if sg not in guards:
+                            guards.append(sg)
         if sig is None:
             continue
         conds[bi] = (sig, dict(arms), els)
@@ -346,11 +381,18 @@ def summarize(F, key):
         if sig not in guards:
             guards.append(sig)
     # comparisons whose result is used as a value (`let left = x == n - 1;`, `a > b` as the tail expression) are the same tests
+    # (not the compiler's own range checks: `1 << h` asserts `h < 64`, an index asserts `i < len`)
+    assert_conds = set()
+    for b in fn["blocks"]:
+        if b["term"]["k"] == "assert":
+            l_ = local_of(b["term"].get("cond") or {})
+            if l_ is not None:
+                assert_conds.add(l_)
     for bi, b in enumerate(fn["blocks"]):
         if b["cleanup"] or bi not in live:
             continue
         for st in b["st"]:
-            if st["k"] == "assign" and st["rv"]["r"] == "bin" and st["rv"]["op"] in NEGATE:
+            if st["k"] == "assign" and st["rv"]["r"] == "bin" and st["rv"]["op"] in NEGATE and not (not st["dst"]["p"] and st["dst"]["l"] in assert_conds):
                 sig = cond_signature(F, ex.rvalue(st["rv"], 0, ()))
                 if sig and sig[0] != "branch" and sig not in guards:
                     guards.append(sig)
@@ -373,6 +415,11 @@ def summarize(F, key):
             continue  # one outcome only rejects (`if let Err(e) = read(..) { return Err(e) }` inside a loop): a rejection, not the loop's control
         loops.append(sig)
     loops.sort(key=lambda g: json.dumps(g))
+    # loop exits decided by a boolean temporary (`matches!(x, Ok(_))`, `let done = ..; if done { break }`): the test that produced it has no exit edge itself
+    loop_anon = 0
+    for bi, e, arms, els in switch_conditions(fn, ex=ex):
+        if bi in lt and bi not in conds and e.kind == "phi" and e.kids and all(x.kind == "const" for x in e.kids):
+            loop_anon += 1
     # silent: conditions a state-changing call is control dependent on whose other outcome carries on normally (not a rejection)
     silent = {}
     ok_rets = {b for b in rets if b not in dead}
@@ -382,6 +429,8 @@ def summarize(F, key):
         targets = {c["bi"] for c in blst}
         found = []
         for bi, (sig, am, els) in conds.items():
+            if bi in fn.get("_loop_heads", ()):
+                continue  # the condition of a `while` does not "skip" what the body does (the header of a `for` loop is not recorded either)
             outs = [(v, t2) for v, t2 in am.items()] + [("else", els)]
             if len({t2 for _v, t2 in outs}) < 2:
                 continue
@@ -392,6 +441,34 @@ def summarize(F, key):
                         found.append([sig, v])
         if found:
             silent[bk] = sorted(found, key=lambda g: json.dumps(g))
+    # silent_n: per call, how many branch outcomes (named or not: `if v.is_empty() { return Ok(()) }` on a local vector has no stable origin)
+    # skip it while the other outcome carries on - a condition that merely became nameable is not a new condition
+    silent_n = {}
+    anon = []
+    for bi, e, arms, els in switch_conditions(fn, ex=ex):
+        if bi in conds or _is_try_switch(fn, bi) or bi in fn.get("_loop_heads", ()):
+            continue
+        txt = render(e)
+        if "Try::branch" in txt or "max_level" in txt or "STATIC_MAX_LEVEL" in txt or txt.startswith("PartialOrd::le(Level::") or re.match(r"^discr\([A-Za-z0-9_:<>, ]*::next\(", txt[:60]):
+            continue
+        anon.append((bi, dict(arms), els))
+    for bk, blst in sorted(by_key.items()):
+        if not any(c["sink"] or (c["ws"] and c["kind"] in GATE) for c in blst):
+            continue
+        targets = {c["bi"] for c in blst}
+        cnt = 0
+        for bi, am, els in [(b_, a_, e_) for b_, (_s, a_, e_) in conds.items() if b_ not in fn.get("_loop_heads", ())] + anon:
+            outs = [(v, t2) for v, t2 in am.items()] + [("else", els)]
+            if len({t2 for _v, t2 in outs}) < 2:
+                continue
+            for v, t2 in outs:
+                if reach(fn, [0], targets, [(bi, t2)]) is None and reach(fn, [0], targets) is not None:
+                    others = [x for _w, x in outs if x != t2]
+                    if any(reach(fn, [x], ok_rets, (), dead) is not None for x in others):
+                        cnt += 1
+        if cnt:
+            k2 = _short_callee(bk)
+            silent_n[k2] = max(silent_n.get(k2, 0), cnt)
     # rejects: the branch outcomes every construction of a named error variant is control dependent on (a rejection must keep consulting
     # the checks it was decided by: `Orphan` only after the parent was looked up, `OldBlock` only for a block that is in the store)
     rejects = {}
@@ -500,6 +577,7 @@ def summarize(F, key):
         universe |= set(ret)
     elif rty not in ("()", "!"):
         universe |= set(_stab(F, ex.local(0, 0, ())))
+    ws_calls = sorted({_short_callee(c["key"]) for c in calls if c["ws"]})
     gates = sorted({c["key"] for c in calls if c["kind"] in GATE or c["sink"]})
     gates_tested = sorted({c["key"] for c in calls if c["kind"] in GATE and c["kind"] != "plain-return"})  # the verdict is examined here, not handed on
     # how many Option / Result combinators consume values here (a `match` on a call's result may legitimately become one of them)
@@ -508,7 +586,7 @@ def summarize(F, key):
         if bi in live and any(re.search(r"^core::(option::Option|result::Result)::[a-z_]+$", nm) for nm in callee_names(t)):
             combs += 1
     return {"must": must, "order": order, "args": args, "guards": guards, "silent": silent, "assigns": assigns, "ret": ret,
-            "consts": const_census(fn), "universe": sorted(universe), "gates": gates, "gates_tested": gates_tested, "combs": combs, "rejects": rejects, "reject_vars": sorted(var_blocks), "each": each, "loops": loops, "phase": phase, "ret_alts": ret_alts, "flags": flags,
+            "consts": const_census(fn), "universe": sorted(universe), "gates": gates, "gates_tested": gates_tested, "combs": combs, "rejects": rejects, "reject_vars": sorted(var_blocks), "each": each, "loops": loops, "phase": phase, "ret_alts": ret_alts, "flags": flags, "loop_anon": loop_anon, "silent_n": silent_n, "ws_calls": ws_calls,
             "guard_n": sorted([json.loads(g), c] for g, c in gcount.items() if c > 1), "guard_all": dict(gcount)}
 
 
@@ -545,7 +623,7 @@ def loop_exit_tests(fn):
     dom = _dominators(fn)
     succ = succs(fn)
     pr = preds(fn)
-    loops = []
+    by_header = {}
     for p in dom:
         for h in succ[p]:
             if h in dom[p]:
@@ -559,8 +637,11 @@ def loop_exit_tests(fn):
                         if y in dom and y not in body:
                             body.add(y)
                             st.append(y)
-                loops.append(body)
+                # back edges to the same header (`continue`) belong to one loop
+                by_header.setdefault(h, set()).update(body)
+    loops = list(by_header.values())
     out = set()
+    heads = set()
     for bi, b in enumerate(fn["blocks"]):
         if b["term"]["k"] != "switch" or bi not in dom:
             continue
@@ -571,7 +652,11 @@ def loop_exit_tests(fn):
         tg = set(succ[bi])
         if any(t in L for t in tg) and any(t not in L for t in tg):
             out.add(bi)
+            # the loop's own condition (`while c`, the `next()` of a `for`): every block of the body comes after it
+            if all(x == bi or bi in dom[x] or x in dom[bi] for x in L):
+                heads.add(bi)
     fn["_loop_tests"] = out
+    fn["_loop_heads"] = heads
     return out
 
 
@@ -693,8 +778,8 @@ def cond_signature(F, e):
     txt = render(e)
     if "Try::branch" in txt or "max_level" in txt or "STATIC_MAX_LEVEL" in txt or txt.startswith("PartialOrd::le(Level::"):
         return None
-    if txt.startswith("discr(") and ("Iterator::next" in txt[:40] or "range::next" in txt[:40] or "::next(" in txt[:30]):
-        return None
+    if re.match(r"^discr\([A-Za-z0-9_:<>, ]*::next\(", txt[:60]):
+        return None  # the header of a `for` loop (`Iterator::next(..)`, not `next_back` / `next_if`)
     if txt.startswith("phi(0 | 1)") or txt in ("?",):
         return None
     c = as_cmp(e)
@@ -890,9 +975,21 @@ class _Cur:
         return self.s[k]
 
 
-def _guard_present(ctx, cs, k, g, closures, helpers, relaxed=False, base_combs=None):
+def _with_local_closures(cs, closures, side):
+    """Operand origins with the results of directly called local closures opened up: `let step = |c, p| c + 2 * p; .. step(current, peak) > size`
+    compares what the closure computes."""
+    sd = set(side)
+    if any(a.startswith("call:") and a.endswith("}") for a in sd):
+        for x in closures:
+            sd |= set(cs.get(x)["universe"]) | set(cs.get(x).get("ret") or [])
+    return sd
+
+
+def _guard_present(ctx, cs, k, g, closures, helpers, relaxed=False, base_combs=None, base_calls=None):
     F = ctx.F
     cur_names, _b = ws_short_names(F)
+    # helpers that can have taken a test over: functions the confirmed tree did not have, or did not call from here
+    fresh = [h for h in helpers if short(h, 2) not in _b or (base_calls is not None and short(h, 2) not in base_calls)]
     g1, g2 = _live_atoms(F, g[1]), _live_atoms(F, g[2])
     pool = [k] + closures + helpers
     if g[0] == "branch":
@@ -908,7 +1005,7 @@ def _guard_present(ctx, cs, k, g, closures, helpers, relaxed=False, base_combs=N
         if calls:
             gated = set()
             # helpers that already existed on the reviewed tree gated their own calls then as well: only a new helper can have taken the test over
-            for x in [k] + closures + [h for h in helpers if short(h, 2) not in _b]:
+            for x in [k] + closures + fresh:
                 gated |= {_short_callee(c) for c in cs.get(x)["gates"]}
                 # a call whose result only flows on (stored, mapped, returned) does not gate anything: the test on it is gone
                 gated |= {a[5:] for cg in cs.get(x)["guards"] for a in cg[1] + cg[2] if a.startswith("call:")}
@@ -921,7 +1018,7 @@ def _guard_present(ctx, cs, k, g, closures, helpers, relaxed=False, base_combs=N
                 return True
             heads = {a[5:] for a in g[2] if a.startswith("head:") and a[5:] in cur_names}
             tested = set()
-            for x in [k] + closures + [h for h in helpers if short(h, 2) not in _b]:
+            for x in [k] + closures + fresh:
                 tested |= {_short_callee(c) for c in cs.get(x)["gates_tested"]}
                 tested |= {a[5:] for cg in cs.get(x)["guards"] for a in cg[1] + cg[2] if a.startswith("call:")}
             for x in closures:
@@ -954,9 +1051,10 @@ def _guard_present(ctx, cs, k, g, closures, helpers, relaxed=False, base_combs=N
         for cg in cs.get(x)["guards"]:
             if cg[0] != g[0]:
                 continue
-            if g1 <= set(cg[1]) and g2 <= set(cg[2]):
+            c1, c2 = _with_local_closures(cs, closures, cg[1]), _with_local_closures(cs, closures, cg[2])
+            if g1 <= c1 and g2 <= c2:
                 return True
-            if g[0] == "Eq" and g1 <= set(cg[2]) and g2 <= set(cg[1]):
+            if g[0] == "Eq" and g1 <= c2 and g2 <= c1:
                 return True
     if _guard_in_helper(ctx, k, [g[0], sorted(g1), sorted(g2)], closures):
         return True
@@ -1076,7 +1174,7 @@ def check(ctx, prop, also=()):
             ac, bc = _short_callee(a), _short_callee(bk)
             if (_is_ws_short(F, ac) and ac not in cur_names) or (_is_ws_short(F, bc) and bc not in cur_names):
                 continue  # one of the two no longer exists
-            targets = {bi for bi, t in F.calls(k) if _short_callee(call_key(fn, t, exprs_for(F, k))) == bc}
+            targets = {bi for bi, t in F.calls(k) if _short_callee(call_key(fn, t, plain_for(F, k))) == bc}
             if not targets:
                 continue  # the state change is gone from this function (vacuous; a dropped state change is a `must` matter)
             rx = pat("re:(?:^|::|<| )%s$" % re.escape(ac))
@@ -1100,7 +1198,7 @@ def check(ctx, prop, also=()):
             ac, bc = _short_callee(a), _short_callee(bk)
             if (_is_ws_short(F, ac) and ac not in cur_names) or (_is_ws_short(F, bc) and bc not in cur_names):
                 continue
-            tb = [(bi, t) for bi, t in F.calls(k) if _short_callee(call_key(fn, t, exprs_for(F, k))) == bc]
+            tb = [(bi, t) for bi, t in F.calls(k) if _short_callee(call_key(fn, t, plain_for(F, k))) == bc]
             rx = pat("re:(?:^|::|<| )%s$" % re.escape(ac))
             cuts = []
             for bi, _how in ctx._call_blocks(k, rx, 2):
@@ -1151,15 +1249,50 @@ def check(ctx, prop, also=()):
                 for base_alt in balts:
                     if len(base_alt) != len(cur_alt):
                         continue
-                    miss = [sorted({a for a in _live_atoms(F, bx) if not a.startswith("narrow:")} - set(cy) - ({a for a in bx if a.startswith("arg")} if x != k else set())) for bx, cy in zip(base_alt, cur_alt)]
+                    def _opened(cy):
+                        # what a directly called workspace function computes with stands in for the call (`prev + shift` computed inline or by
+                        # the helper that already did exactly that)
+                        sd = set(cy)
+                        for h in helpers:
+                            if "call:" + short(h, 2) in sd:
+                                sd |= set(cs.get(h)["universe"]) | set(cs.get(h).get("ret") or [])
+                        # a `mut` parameter the body reassigns stands for every value assigned to it (the confirmed tree may have used a local for that)
+                        fx = F.fns[x]
+                        for a_ in list(sd):
+                            m_ = re.match(r"^arg(\d+)$", a_)
+                            if m_ and int(m_.group(1)) + 1 <= fx["argc"]:
+                                for kind_, _bi, xx in defs_of(fx).get(int(m_.group(1)) + 1, [])[:6]:
+                                    ex_ = plain_for(F, x)
+                                    sd |= set(_stab(F, ex_.rvalue(xx, 0, ()) if kind_ == "st" else ex_.call(xx, 0, ())))
+                        return sd
+                    miss = [sorted({a for a in _live_atoms(F, bx) if not a.startswith("narrow:")} - _opened(cy) - ({a for a in bx if a.startswith("arg")} if x != k else set())) for bx, cy in zip(base_alt, cur_alt)]
                     if not any(miss):
                         # a new filtering / truncating adaptor on the way into the call: part of the data no longer reaches the state change
                         extra = [sorted({a for a in cy if a.startswith("narrow:")} - set(bx)) for bx, cy in zip(base_alt, cur_alt)]
                         sink_was_conditional = any(_short_callee(sk) == bc for sk in b.get("silent", {}))
                         # (a sink that already ran only for some elements tolerates one more filter; a *different* selector in the place of a
                         # confirmed one - `last()` replaced by `find(..)` - changes which element the state change is applied to)
-                        replaced = any(ex_ and any(a.startswith("narrow:") for a in bx) for bx, ex_ in zip(base_alt, extra))
-                        if any(extra) and "narrow_checked" in b and (not sink_was_conditional or replaced):
+                        replaced = any(ex_ and any(a.startswith("narrow:") and a not in cy for a in bx) for bx, cy, ex_ in zip(base_alt, cur_alt, extra))
+                        moved = False
+                        if any(extra) and not replaced:
+                            # a confirmed branch of this function now lives in the closure of a filtering adaptor (`for x in it { if let Some(y) = f(x) { v.push(y) } }`
+                            # became `it.filter_map(f).collect()`): the adaptor is that branch
+                            filt = [c_ for c_ in closures if re.search(r"@(?:Iterator|DoubleEndedIterator|Itertools)::(filter|filter_map|take_while|skip_while|find|find_map|map_while)#\d+$", _closure_role(F, c_))]
+                            if filt:
+                                own = cur["guards"]
+                                for g_ in b.get("guards", []):
+                                    if g_[0] != "branch":
+                                        continue
+                                    heads_ = {a for a in g_[2] if a.startswith("head:")}
+                                    n_base = sum(1 for g2_ in b.get("guards", []) if g2_[0] == "branch" and heads_ <= set(g2_[2]))
+                                    n_own = sum(1 for cg in own if cg[0] == "branch" and heads_ <= set(cg[2]))
+                                    if not heads_ or n_own >= n_base:
+                                        continue  # the verdict of that call is still tested in the function itself as often as before
+                                    calls_ = {"call:" + a[5:] for a in heads_}
+                                    if any(calls_ <= set(cs.get(c_)["universe"]) for c_ in filt):
+                                        moved = True
+                                        break
+                        if any(extra) and "narrow_checked" in b and (not sink_was_conditional or replaced) and not moved:
                             best = [["+" + a for a in ex_] for ex_ in extra]
                             break
                         okay = True
@@ -1177,7 +1310,7 @@ def check(ctx, prop, also=()):
         parent = roles.get(role.split("@")[0]) if b.get("closure") else None
         for g in b.get("guards", []):
             n["guards"] += 1
-            if _guard_present(ctx, cs, k, g, closures, helpers, base_combs=b.get("combs")):
+            if _guard_present(ctx, cs, k, g, closures, helpers, base_combs=b.get("combs"), base_calls=b.get("ws_calls")):
                 continue
             if parent and parent != k:
                 # closures are addressed by the adaptor call that receives them; when that call was rewritten the role may now name a
@@ -1197,7 +1330,8 @@ def check(ctx, prop, also=()):
             def same(cg):
                 if cg[0] != g[0]:
                     return False
-                return (g1 <= set(cg[1]) and g2 <= set(cg[2])) or (g[0] == "Eq" and g1 <= set(cg[2]) and g2 <= set(cg[1]))
+                c1, c2 = _with_local_closures(cs, closures, cg[1]), _with_local_closures(cs, closures, cg[2])
+                return (g1 <= c1 and g2 <= c2) or (g[0] == "Eq" and g1 <= c2 and g2 <= c1)
             here = [cg for cg in cur["guards"] if same(cg)]
             if not here:
                 continue  # the test is gone from this function (moved into a closure / helper, or removed: the guard facet's matter)
@@ -1212,6 +1346,8 @@ def check(ctx, prop, also=()):
                 return (a1 <= set(cg[1]) and a2 <= set(cg[2])) or (g[0] == "Eq" and a1 <= set(cg[2]) and a2 <= set(cg[1]))
             if any(loose(cg) for x in closures + helpers for cg in cs.get(x).get("loops", [])):
                 continue
+            if cur.get("loop_anon", 0) > b.get("loop_anon", 0):
+                continue  # the verdict now reaches the loop exit through a boolean temporary (`is_ok()` -> `matches!(.., Ok(_))`)
             _cn2, base_names2 = ws_short_names(F)
             if any(cs.get(x).get("loops") and short(x, 2) not in base_names2 for x in helpers):
                 continue  # the loop was extracted into a function the confirmed tree did not have: its body is held to nothing here
@@ -1236,9 +1372,14 @@ def check(ctx, prop, also=()):
                         a2 = {z for z in a_ if not (loose and (z.startswith("arg") or z.startswith("call:")))}
                         return a2 <= set(b_)
                     if not loose:
-                        # in the function itself a signature is counted exactly (a richer comparison is a different test)
+                        # in the function itself a signature is counted exactly (a richer comparison is a different test) - unless an operand
+                        # now comes out of a directly called local closure, whose body is opened up
                         if set(cg[1]) == g1 and set(cg[2]) == g2 or (g[0] == "Eq" and set(cg[1]) == g2 and set(cg[2]) == g1):
                             have += c_n
+                        elif any(a.startswith("call:") and a.endswith("}") for a in cg[1] + cg[2]):
+                            c1, c2 = _with_local_closures(cs, closures, cg[1]), _with_local_closures(cs, closures, cg[2])
+                            if (g1 <= c1 and g2 <= c2) or (g[0] == "Eq" and g1 <= c2 and g2 <= c1):
+                                have += c_n
                     elif (sub(g1, cg[1]) and sub(g2, cg[2])) or (g[0] == "Eq" and sub(g1, cg[2]) and sub(g2, cg[1])):
                         have += c_n
             if have >= cnt:
@@ -1284,6 +1425,8 @@ def check(ctx, prop, also=()):
                     same_sink = [conds for sk, conds in b.get("silent", {}).items() if _short_callee(sk) == _short_callee(bk)]
                     if any(core <= _core(F, bs) or _core(F, bs) <= core for conds in same_sink for (bs, _a) in conds):
                         continue
+                if "silent_n" in b and cur.get("silent_n", {}).get(_short_callee(bk), 0) <= b["silent_n"].get(_short_callee(bk), 0):
+                    continue  # as many outcomes skip the call as on the confirmed tree: a condition became nameable (or was respelled), none was added
                 bad += 1
                 ctx.record("baseline-silent", "R9", k, "%s: %s is not skipped under a new condition" % (short(k, 2), bk), "violation", [where],
                            ["%s is now reached only when %s(%s ; %s) takes arm %s, and the other outcome carries on without it (on the confirmed tree it was not conditional on this)"
@@ -1338,15 +1481,26 @@ def check(ctx, prop, also=()):
             for val, bsites in bent.items():
                 for csigs in cent.get(val, []):
                     n["flags"] += 1
-                    ccores = [(_core(F, cg), cg) for cg in csigs]
-                    ccores = [(cc, cg) for cc, cg in ccores if cc]
+                    def fkey(sg):
+                        # a test of a call's verdict is that call's test however its operands are spelled; a comparison is its operator and origins
+                        if sg[0] == "branch" and sg[2]:
+                            return ("h", frozenset(sg[2]))
+                        return ("c", sg[0], frozenset(_core(F, sg)))
+
+                    def fmatch(ck, bk_):
+                        if ck[0] != bk_[0]:
+                            return False
+                        if ck[0] == "h":
+                            return ck[1] == bk_[1]
+                        return ck[1] == bk_[1] and (ck[2] <= bk_[2] or bk_[2] <= ck[2])
+                    ccores = [(fkey(cg), cg) for cg in csigs if _core(F, cg)]
                     okay = False
                     worst = None
                     for bsigs in bsites:
-                        pool = [_core(F, bs) for bs in bsigs]
+                        pool = [fkey(bs) for bs in bsigs]
                         extra = None
-                        for cc, cg in sorted(ccores, key=lambda x: -len(x[0])):
-                            hit = next((i for i, bc in enumerate(pool) if bc is not None and cc <= bc), None)
+                        for cc, cg in ccores:
+                            hit = next((i for i, bc in enumerate(pool) if bc is not None and fmatch(cc, bc)), None)
                             if hit is None:
                                 extra = cg
                                 break
@@ -1474,7 +1628,7 @@ def _guard_in_helper(ctx, k, g, closures=()):
     F = ctx.F
     for x in [k] + list(closures):
         f = F.fns[x]
-        exf = exprs_for(F, x)
+        exf = plain_for(F, x)
         for cbi, t in F.calls(x):
             for gname in callee_names(t):
                 if gname not in F.fns or gname == x or F.fns[gname]["kind"] == "Closure":
